@@ -203,3 +203,40 @@ func (d *Dict) RowMap(r Row) map[string]string {
 	}
 	return m
 }
+
+// ToUpdogWithLeaves converts like ToUpdog and also returns the library's leaf nodes in prefix order,
+// so that a caller-held expression can be modified in place between executions.
+func (d *Dict) ToUpdogWithLeaves(e *Expr, leaves *[]*updog.ExprEqual, src *[]*Expr) updog.Expression {
+	switch e.Op {
+	case "eq":
+		l := &updog.ExprEqual{Column: d.Col(e.Col), Value: d.Val(e.Val)}
+		*leaves = append(*leaves, l)
+		*src = append(*src, e)
+		return l
+	case "not":
+		return &updog.ExprNot{Expr: d.ToUpdogWithLeaves(e.E, leaves, src)}
+	case "and":
+		x := &updog.ExprAnd{}
+		for _, s := range e.Es {
+			x.Exprs = append(x.Exprs, d.ToUpdogWithLeaves(s, leaves, src))
+		}
+		return x
+	}
+	x := &updog.ExprOr{}
+	for _, s := range e.Es {
+		x.Exprs = append(x.Exprs, d.ToUpdogWithLeaves(s, leaves, src))
+	}
+	return x
+}
+
+// CloneExpr deep-copies a rank expression.
+func CloneExpr(e *Expr) *Expr {
+	if e == nil {
+		return nil
+	}
+	c := &Expr{Op: e.Op, Col: e.Col, Val: e.Val, Ph: e.Ph, E: CloneExpr(e.E)}
+	for _, s := range e.Es {
+		c.Es = append(c.Es, CloneExpr(s))
+	}
+	return c
+}
